@@ -66,7 +66,8 @@ class World:
                        "scopy", "savedir_loaddir", "export_with_axis", "export_complex", "export_2d", "failed_write_then_good_save",
                        "nested_basis_and_units", "fault_unwinds", "large_file_rewritten", "two_directories_in_one_session", "several_objects_in_one_file", "imported_axis_saved", "format:.txt", "format:.npy", "format:.npz", "format:.mat", "format:.dat",
                        "complex_basis_context", "save_inside_complex_basis_context", "same_object_exported_again_under_other_units",
-                       "export_matrix_with_a_singleton_dimension"]
+                       "export_matrix_with_a_singleton_dimension", "import_into_object_holding_real_data",
+                       "saved_in_two_sibling_basis_contexts"]
     required_faults = ["write_ENOSPC", "F1_simfault"]
     components = {
         "real": ["Saveable.save/load/scopy/savedir/loaddir", "Parcel / load_parcel (dill)", "DataSaveable.save_data/load_data, "
@@ -102,6 +103,15 @@ class World:
         if rng.random() < 0.3:
             kinds = [k for k in kinds if k not in ("fault", "badsave")]
         ops = []
+        if rng.random() < 0.15:
+            # swarm member: two sibling basis contexts (same depth, different operators) inside one outer context, the
+            # same object touched and saved in each of them
+            kk = rng.randrange(32)
+            ops += [{"op": "enter", "t": "b", "k": rng.randrange(8)}, {"op": "enter", "t": "b", "k": rng.randrange(8)},
+                    {"op": "touch", "k": kk}, {"op": "save", "k": kk, "how": rng.choice(["file", "path"])}, {"op": "exit"},
+                    {"op": "enter", "t": "b", "k": rng.randrange(8)}, {"op": "touch", "k": kk},
+                    {"op": "save", "k": kk, "how": rng.choice(["file", "path"])}, {"op": "exit"}, {"op": "exit"},
+                    {"op": "load", "s": 0}, {"op": "load", "s": 1}]
         for _ in range(n):
             k = rng.choice(kinds)
             if k == "enter_u":
@@ -130,7 +140,8 @@ class World:
                 ops.append({"op": "export", "src": rng.choice(["dfun", "dfun", "abs", "oper", "twod"]), "fmt": rng.randrange(len(FORMATS)),
                             "cplx": rng.random() < 0.5, "twod": rng.random() < 0.4, "axis": rng.random() < 0.5,
                             "pay": rng.randrange(1 << 30), "big": rng.random() < 0.06,
-                            "single": rng.choice([0, 0, 0, 0, 1, 2]), "again": rng.random() < 0.5})
+                            "single": rng.choice([0, 0, 0, 0, 1, 2]), "again": rng.random() < 0.5,
+                            "prefill": rng.random() < 0.3})
         return {"classes": classes, "seed": rng.randrange(1 << 30), "ops": ops}
 
     def fault_variants(self, base, rng):
@@ -195,6 +206,9 @@ class Runner:
         self.scratch = tempfile.mkdtemp(prefix="qsim-store-", dir=os.environ.get("QSIM_SCRATCH"))
         self.counter = [0]
         self.failed_save_pending = set()
+        self.serial = 0
+        self.stack_serial = []
+        self.sibling_saves = []
 
         class _U:
             def __init__(s, c):
@@ -462,6 +476,8 @@ class Runner:
             with cm:
                 with_entered = True
                 self.stack.append(tag)
+                self.serial += 1
+                self.stack_serial.append(self.serial)
                 if len(set(t for t, v in self.stack)) == 2:
                     self.ctx.probe("nested_basis_and_units")
                 self.ctx.ev(i, "enter", tag[0], tag[1] if tag[0] == "u" else self.items[tag[1]].cls, len(self.stack))
@@ -476,6 +492,7 @@ class Runner:
         if not with_entered:
             raise HarnessError("context not entered")
         self.stack.pop()
+        self.stack_serial.pop()
         if fault is not None:
             fault.unwind -= 1
             if fault.unwind > 0:
@@ -512,6 +529,12 @@ class Runner:
             try:
                 if it.real.get_current_basis() != 0:
                     self.ctx.probe("save_inside_basis_context_transformed")
+                    bs = [(sr, v) for (t, v), sr in zip(self.stack, self.stack_serial) if t == "b"]
+                    if len(bs) >= 2:
+                        outer, inner = tuple(sr for sr, v in bs[:-1]), bs[-1]
+                        if any(o == outer and (sr != inner[0] and v != inner[1]) for (o, sr, v) in self.sibling_saves):
+                            self.ctx.probe("saved_in_two_sibling_basis_contexts")
+                        self.sibling_saves.append((outer, inner[0], inner[1]))
                     if any(t == "b" and self.items[v].cls == "SelfAdjointComplex" for t, v in self.stack):
                         self.ctx.probe("save_inside_complex_basis_context")
             except Exception:
@@ -747,6 +770,10 @@ class Runner:
             a.data = y.copy()
             b = qr.DFunction()
             b.axis = qr.TimeAxis(0.0, n, 1.0)
+            if op.get("prefill"):
+                # the receiving object already holds (real) data of the same shape, e.g. from an earlier import
+                b.data = numpy.zeros(shape, dtype=float)
+                self.ctx.probe("import_into_object_holding_real_data")
         path = os.path.join(self.scratch, "e%d%s" % (i, fmt))
         axis_a = getattr(a, "axis", None)
         what = "op %d: %s export/import %s %s %s %s" % (i, src, fmt, "complex" if cplx else "real", "2-D" if twod else "1-D",
